@@ -24,8 +24,8 @@ AUTHORS = ['Dan Davison', 'Ann', 'Jörg Müller', '山田 太郎', 'x y z w', 'T
 
 
 def plan(ctx):
-    items = [('model', engine.stable_hash((ctx.seed, 'c17', i))) for i in range(ctx.n(2200, 50000))]
-    items += [('real', engine.stable_hash((ctx.seed, 'c17r', i))) for i in range(ctx.n(150, 3000))]
+    items = [('model', engine.stable_hash((ctx.seed, 'c17', i))) for i in range(ctx.n(6000, 100000))]
+    items += [('real', engine.stable_hash((ctx.seed, 'c17r', i))) for i in range(ctx.n(300, 4000))]
     return items
 
 
